@@ -188,8 +188,9 @@ func VerifC35bMux() {
 	verifPanicsAreViolations()
 	c := verifScript()
 	mux, tc, o := verifDemux(c)
-	verifAssert("C35-no-panic", !o.panicked)
-	verifAssert("C35-mux-handler-returns", o.returned)
+	// one claim: a panic ends the handler before it returns (and the forced-schedule native replay
+	// parks a goroutine that panics while evaluating the operand of a channel send)
+	verifAssert("C35-mux-handler-returns-without-panic", verifAnd(!o.panicked, o.returned))
 	verifAssert("C35-mux-reads-one-byte-at-most", verifAnd(c.off <= 1, c.maxAsked <= 1))
 	verifAssert("C35-mux-hands-a-connection-to-one-consumer-at-most", o.n1+o.n2 <= 1)
 	routable := len(c.in) > 0 && c.failDL == 0
